@@ -160,13 +160,14 @@ def gen_input(rng, kind, real=False):
   fresh = Fresh(rng, real)
   n = rng.randint(2, 4) if not real else rng.randint(2, 7)
   base = dict(dim=dim, pts=[fresh.point(dim) for _ in range(n)])
+  tik = rng.choice([None, None, 0.003, 0.05])     # auto-noise models carry a nugget; what they report must not depend on it
   if kind == "gp":
-    return dict(base, vals=gen_values(rng, n, real), noise=gen_noise(rng, n, real), ops=gen_pred_ops(rng, fresh, dim, real))
+    return dict(base, vals=gen_values(rng, n, real), noise=gen_noise(rng, n, real), ops=gen_pred_ops(rng, fresh, dim, real), tik=tik)
   if kind == "sum":
     m = rng.choice([2, 2, 3])
     w = [rng.choice([0.5, 0.25, 1.0, 2.0]) for _ in range(m)] if not real else [rng.uniform(0.05, 2) for _ in range(m)]
     return dict(base, comps=[dict(vals=gen_values(rng, n, real), noise=gen_noise(rng, n, real)) for _ in range(m)], weights=w,
-                ops=gen_pred_ops(rng, fresh, dim, real))
+                ops=gen_pred_ops(rng, fresh, dim, real), tik=tik)
   if kind == "pz":
     n = rng.randint(10, 13)
     p = [fresh.point(dim) for _ in range(n)]
@@ -189,7 +190,7 @@ def gen_input(rng, kind, real=False):
       ops.insert(rng.randint(0, len(ops)), ["append_bad", rng.randint(1, 2), rng.random() < 0.5])
     return dict(dim=dim, pts=p, vals=[float(x) for x in v], gamma=rng.choice([0.25, 0.5, 0.3]), ops=ops)
   if kind in ("clgp", "clsum"):
-    inp = dict(base, n=rng.randint(1, 4), warm=rng.random() < 0.5)
+    inp = dict(base, n=rng.randint(1, 4), warm=rng.random() < 0.5, tik=tik, af_kind=rng.choice(["ei", "ei", "multitask", "aei"]))
     if kind == "clgp":
       inp.update(vals=gen_values(rng, n, real), noise=gen_noise(rng, n, real))
     else:
@@ -228,7 +229,7 @@ def observe(kind, inp):
   """Run the implementation on one input; returns (coq case term, observation dict)."""
   d = inp["dim"]
   if kind in ("gp", "sum"):
-    p = U.mk_gp(d, inp["pts"], inp["vals"], inp["noise"]) if kind == "gp" else U.mk_sum(inp)
+    p = U.mk_gp(d, inp["pts"], inp["vals"], inp["noise"], inp.get("tik")) if kind == "gp" else U.mk_sum(inp)
     ops = inp["ops"] + FINAL_READS
     outs = [U.predictor_op(p, d, op) for op in ops]
     tol = any(op[0] == "append" and op[2] == "LieMean" for op in ops)
@@ -446,7 +447,7 @@ def _close(a, b, rtol=1e-12, atol=0.0):
 
 def oracle_predictor(kind, inp):
   d = inp["dim"]
-  p = U.mk_gp(d, inp["pts"], inp["vals"], inp["noise"]) if kind == "gp" else U.mk_sum(inp)
+  p = U.mk_gp(d, inp["pts"], inp["vals"], inp["noise"], inp.get("tik")) if kind == "gp" else U.mk_sum(inp)
   comps = [dict(vals=list(inp["vals"]), noise=list(inp["noise"]))] if kind == "gp" else [dict(vals=list(c["vals"]), noise=list(c["noise"])) for c in inp["comps"]]
   w = [1.0] if kind == "gp" else list(inp["weights"])
   P = [list(x) for x in inp["pts"]]
@@ -489,8 +490,16 @@ def oracle_predictor(kind, inp):
         m, var = p.compute_mean_and_variance_of_points(U.arr2([x], d))
       except Exception as e:
         return _fail(kind, inp, "prediction raised after history", repr(e), "a prediction")
-      if v is not None and op[2] != "LieMean" and abs(float(m[0]) - v) > 1e-6 * (1 + abs(v)) + 1e6 * atol:
-        return _fail(kind, inp, "model not refactorised: mean at a lie is not the lie value", float(m[0]), v)
+      if inp.get("tik") is None:
+        if v is not None and op[2] != "LieMean" and abs(float(m[0]) - v) > 1e-6 * (1 + abs(v)) + 1e6 * atol:
+          return _fail(kind, inp, "model not refactorised: mean at a lie is not the lie value", float(m[0]), v)
+      elif kind == "gp":
+        # with a nugget on the diagonal the model does not interpolate its lies: compare with a model built afresh from the data it reports
+        fresh = U.mk_gp(d, p.points_sampled, p.points_sampled_value, p.points_sampled_noise_variance, inp["tik"])
+        fm, fv = fresh.compute_mean_and_variance_of_points(U.arr2([x], d))
+        if abs(float(m[0]) - float(fm[0])) > 1e-8 * (1 + abs(float(fm[0]))) or abs(float(var[0]) - float(fv[0])) > 1e-8 * (1 + abs(float(fv[0]))):
+          return _fail(kind, inp, "model not refactorised: prediction differs from a model built afresh from the reported data", [float(m[0]), float(var[0])],
+                       [float(fm[0]), float(fv[0])])
   return None
 
 
